@@ -724,7 +724,8 @@ def run_api(chk, mods, env, quick):
         typ = rng.choice(["STANDARD", "EXPRESS"])
         sync = front == "quart" and typ == "EXPRESS" and rng.random() < 0.5
         cases.append({"op": "api", "front": front, "type": typ, "sync": sync, "restart": rng.random() < 0.4,
-                      "account": rng.choice(["0123456789", "42"]), "sm": sm, "name": nm})
+                      "account": rng.choice(["0123456789", "42"]), "sm": sm, "name": nm,
+                      "rerole": rng.choice([None, None, "777", "0123456780"])})
     chk.cov["streams"]["api.random"] = n
     cases = [c for c in cases if not has_surrogate(cj(c))]
     results = [api_case(env, c) for c in cases]
@@ -829,6 +830,11 @@ def api_case(env, c):
             if c["restart"] and hits["n"] == 2:
                 se.executions.clear()
                 se.execution_history.clear()
+        if c.get("rerole"):
+            # the machine's role is replaced by one of another account before the start: the state machine ARN (and the
+            # account every ARN derived from it carries) is fixed at creation
+            st, body = env.call(front, "UpdateStateMachine", {"stateMachineArn": sm_arn, "roleArn": ROLE % c["rerole"]})
+            out["rerole"] = (body.get("__type", "ok" if st == 200 else "http%d" % st), st)
         params = {"stateMachineArn": sm_arn, "name": c["name"], "input": "{}"}
         if c["sync"]:
             stub.inline = True
